@@ -311,7 +311,8 @@ def fold : CEnv → Expr → R Expr
       | .litBool true => do
         let body' ← fold g body
         .ok (.loop body')
-      | _ => .ok .litUnit
+      | .litBool false => .ok .litUnit
+      | _ => unsup "constant while condition that is not a bool"
     else do
       let c' ← fold g c
       match c' with
